@@ -106,3 +106,6 @@ func vFaults(open, write int) {}
 // vClockCount / vClockReading expose the symbolic clock's readings (engine only).
 func vClockCount() int          { return 0 }
 func vClockReading(i int) int64 { return 0 }
+
+// vFSWriteCount: number of successful write calls on model files (engine only).
+func vFSWriteCount() int { return 0 }
